@@ -116,7 +116,7 @@ def gen(ctx: Ctx, kind, i):
         n0, n1 = rng.choice([12, 16, 24, 30]), rng.choice([12, 16, 24, 30])
         # a few operator configurations per run (each costs one numba compilation), many plane waves per configuration
         cfg = ctx.__dict__.setdefault("_c37_cfgs", [])
-        if len(cfg) < (4 if not ctx.thorough else 12):
+        if len(cfg) < (4 if not ctx.thorough else 8):
             sx = rng.choice([0.05, 0.1, 0.125, 0.2])
             sy = sx if len(cfg) % 2 == 1 else rng.choice([s for s in [0.05, 0.1, 0.125, 0.2, 0.25] if s != sx])
             cfg.append((rng.choice([2, 4, 6, 8, 10, 14, 18]) if len(cfg) != 1 else 6, sx, sy))
@@ -238,9 +238,9 @@ class C37(Property):
     def conformance(self, ctx: Ctx):
         for i in range(ctx.n(32, 400)):
             self.run(ctx, gen(ctx, "eigen", i))
-        for i in range(ctx.n(3, 30)):
+        for i in range(ctx.n(3, 14)):
             self.run(ctx, gen(ctx, "vacuum", i))
-        for i in range(ctx.n(2, 20)):
+        for i in range(ctx.n(2, 8)):
             self.run(ctx, gen(ctx, "lazy", i))
 
     def run(self, ctx: Ctx, c):
